@@ -44,6 +44,7 @@ ASSUMPTIONS = ["configs are built through Config::builder().build (valid: unique
                "the `log` crate's macros and set_max_level/max_level are exercised, not verified "
                "(modelled in Model/Facade.v from log 0.4.34 src/macros.rs)"]
 TRUSTED = ["`log` 0.4.34 facade (macros, global max level, set_boxed_logger) modelled in coq/Model/Facade.v"]
+RELEASE_TOO = True          # the cases also run through the release-profile harness (see ./check)
 EXHAUSTIVE = {"quick": False, "thorough": False}
 
 A = ["A", "B"]
